@@ -11,3 +11,9 @@ void* vx_docnew(unsigned long amt, void*) { VX_ASSERT(amt <= sizeof vx_arena[0] 
 void vx_attrmap_ctor(void*, void*) asm("_ZN11xercesc_4_014DOMAttrMapImplC1EPNS_7DOMNodeE"); void vx_attrmap_ctor(void*, void*) {}
 void vx_attrmap_ctor2(void*, void*, const void*) asm("_ZN11xercesc_4_014DOMAttrMapImplC1EPNS_7DOMNodeEPKS0_"); void vx_attrmap_ctor2(void*, void*, const void*) {}
 }
+// user-data handlers (clone/import/rename/release notifications) are not part of the tree-link operations: cutting the notifier keeps its
+// hash-table enumerator class - and with it one more candidate at every virtual call of that slot shape - out of the closure
+extern "C" {
+void vx_calludh(const void*, int, const void*, void*) asm("_ZNK11xercesc_4_011DOMNodeImpl20callUserDataHandlersENS_18DOMUserDataHandler16DOMOperationTypeEPKNS_7DOMNodeEPS3_");
+void vx_calludh(const void*, int, const void*, void*) {}
+}
